@@ -107,10 +107,13 @@ def s_hostport(vc):
     exp = authority_spec(vc, scheme, host, port)
     got = out.result
     vc.ensure_kf("is_rfc3986_authority", got == (exp if kind == "str" else as_bytes(vc, exp)), KF1, contains(host, ":"))
-    # without the bracket clause (holds for every host): port elided iff default
+    # independent of the bracket clause (holds for every host): the host text is kept and the port is elided iff it is the default
     d = default_port_spec(scheme)
-    plain = host + ":" + itos(vc, port) if d is None else If(port == d, host, host + ":" + itos(vc, port))
-    vc.ensure("port_elided_iff_default", got == (plain if kind == "str" else as_bytes(vc, plain)))
+    conv = (lambda x: x) if kind == "str" else (lambda x: as_bytes(vc, x))
+    suffix = ":" + itos(vc, port)
+    elided = Or(got == conv(host), got == conv("[" + host + "]"))
+    explicit = Or(got == conv(host + suffix), got == conv("[" + host + "]" + suffix))
+    vc.ensure("port_elided_iff_default", explicit if d is None else If(port == d, elided, explicit))
 
 
 @scenario("unparse", functions=[U + ":unparse", U + ":hostport"])
@@ -171,14 +174,20 @@ def check_host_and_authority(vc, tag, data, hdrs, names, vals, scheme, host, por
     post = fields_of(vc, hdrs)
     if has_host:
         # whole header list: as after set_all("Host", [authority]) on the multimap (first Host replaced in place, spelling kept, duplicates dropped)
-        spec = spec_set_all(vc, names, vals, b"Host", [utf8(vc, exp)])
+        # (the value is the ASCII authority; for non-ASCII hosts -- IDN U-labels -- the A-label form is required: T2 / KF-C33-2)
+        spec = spec_set_all(vc, names, vals, b"Host", [as_bytes(vc, exp)])
         vc.ensure(tag + ".headers.count", count([c for c, _ in spec]) == len(post))
+        ascii_host = is_ascii(vc, host)
         for i, (c, item) in enumerate(spec):
             before = count([c2 for c2, _ in spec[:i]])
-            ok = Implies(c, And(*[Implies(before == j, pair_eq(post[j], item)) for j in range(len(post))])) if post else Not(c)
-            if isinstance(names[i] if i < len(names) else b"Host", bytes) and (names[i] if i < len(names) else b"Host").lower() == b"host":
-                vc.ensure_kf(f"{tag}.host_header_is_new_authority[{i}]", ok, KF1, bad)
+            is_host = isinstance(names[i] if i < len(names) else b"Host", bytes) and (names[i] if i < len(names) else b"Host").lower() == b"host"
+            if is_host:
+                place = Implies(c, And(*[Implies(before == j, items_of(post[j])[0] == item[0]) for j in range(len(post))])) if post else Not(c)
+                value = Implies(And(c, ascii_host), And(*[Implies(before == j, items_of(post[j])[1] == item[1]) for j in range(len(post))])) if post else Not(c)
+                vc.ensure(f"{tag}.host_header_kept_in_place[{i}]", place)
+                vc.ensure_kf(f"{tag}.host_header_is_new_authority[{i}]", value, KF1, bad)
             else:
+                ok = Implies(c, And(*[Implies(before == j, pair_eq(post[j], item)) for j in range(len(post))])) if post else Not(c)
                 vc.ensure(f"{tag}.other_header_untouched[{i}]", ok)
     else:
         vc.ensure(tag + ".no_host_header_created", And(len(post) == len(names), *[pair_eq(post[i], (names[i], vals[i])) for i in range(min(len(post), len(names)))]))
